@@ -106,6 +106,8 @@ def main(argv=None):
     if a.only:
         jobs = [j for j in jobs if fnmatch.fnmatch(j[0], a.only)]
     jobs = list(jobs)
+    # longest first (harness-provided weights) so that the last worker does not start the heaviest item
+    jobs.sort(key=lambda j: -float((j[1] or {}).get("weight", 0)))
     ctx = mp.get_context("fork")
     results = []
     n = max(1, min(a.jobs, len(jobs)))
